@@ -145,6 +145,11 @@ func (s *Session) frameObligations(prop string) []*Obligation {
 		switch kind {
 		case "read":
 			_, ok = perLineReadable[name]
+			if !ok && s.isInitOnlyPattern(name) {
+				// a compiled regular expression that is assigned by package initialisation only: a constant of the program
+				// (regexp.Regexp is immutable through its API), it cannot carry anything from one line or value to another
+				ok = true
+			}
 		case "write":
 			ok = perLineWritable[name]
 		}
@@ -183,4 +188,37 @@ func (s *Session) frameObligations(prop string) []*Obligation {
 	out = append(out, &Obligation{Name: "frame/per-line-call-tree/functions", Fn: "frame", Kind: "frame", Props: props, Backend: "frame", Result: "unsat",
 		Clause: "functions of package main reachable from RedactMongoLog / MarshalOrdered: " + strings.Join(names, ", ")})
 	return out
+}
+
+// isInitOnlyPattern: the package-level variable has type *regexp.Regexp and no function other than the package
+// initialiser stores to it (or takes its address).
+func (s *Session) isInitOnlyPattern(name string) bool {
+	gv, ok := s.g.pkg.Members[name].(*ssa.Global)
+	if !ok {
+		return false
+	}
+	if t := gv.Type().String(); t != "**regexp.Regexp" {
+		return false
+	}
+	for _, n := range sortedKeys(s.fns) {
+		fn := s.fns[n]
+		if fn.Name() == "init" || strings.HasPrefix(fn.Name(), "init#") {
+			continue
+		}
+		for _, b := range fn.Blocks {
+			for _, in := range b.Instrs {
+				if st, ok := in.(*ssa.Store); ok && st.Addr == ssa.Value(gv) {
+					return false
+				}
+				if call, ok := in.(ssa.CallInstruction); ok {
+					for _, a := range call.Common().Args {
+						if a == ssa.Value(gv) {
+							return false
+						}
+					}
+				}
+			}
+		}
+	}
+	return true
 }
